@@ -521,11 +521,15 @@ func oracleFor(prop string, fail func(oracleCase, string, map[string]any), sum *
 						nt = true
 					}
 				case html.EndTagToken:
-					if len(stack) > 0 && stack[len(stack)-1] == t.Data {
-						stack = stack[:len(stack)-1]
-						if v.hidden(t.Data) {
-							depth--
-						}
+					if voidElems[t.Data] {
+						continue
+					}
+					if len(stack) == 0 || stack[len(stack)-1] != t.Data {
+						return false // a stray or crossing end tag: the input is not well nested
+					}
+					stack = stack[:len(stack)-1]
+					if v.hidden(t.Data) {
+						depth--
 					}
 				case html.TextToken:
 					if depth == 0 {
